@@ -13,6 +13,8 @@ class Harness:
         self.loader = _loader.Loader(shim_map=shim_map, patches=patches, extra_builtins=extra_builtins)
         import logging
         logging.disable(logging.CRITICAL)      # the repo logs tracebacks of handled exceptions; irrelevant here
+        import warnings
+        warnings.simplefilter('ignore')
         self.ctx = core.Ctx(timeout_ms=timeout_ms, solver_opts=solver_opts)
         core.set_ctx(self.ctx)
         self.paths = 0
